@@ -190,6 +190,8 @@ VAR_DEFS = [
     ("TEMPERATURE", "TEMP", "nodal", ["T"], "NODE"),
     ("MY_FIELD", "CUSTOM2", "elnodal", ["c1", "c2"], "ELEMENT_NODAL"),
     ("DISPLACEMENT", "DISPLACEMENT", "nodal", ["dx", "dy", "dz"], "NODE"),
+    ("DISPLACEMENT", "DISPLACEMENT", "nodal", ["dx", "dy"], "NODE"),          # plane result under the standard name
+    ("STRESS_CAUCHY", "STRESS_CAUCHY", "elnodal", ["S11", "S22", "S33", "S12"], "ELEMENT_NODAL"),
 ]
 SRC_COLUMNS = {"DISPLACEMENT": ["dx", "dy", "dz"], "TEMP": ["T"],
                "STRESS_CAUCHY": ["S11", "S22", "S33", "S12", "S13", "S23"],
@@ -714,7 +716,7 @@ def _verify_geometry(imp, raw, g, mesh, model, out, log, step):
                     okj = _frame_rows(fj) == want_rows
                     if okj:
                         for rr, key in enumerate(want_rows):
-                            if [float(x) for x in gotv[rr]] != [float(x) for x in (wantv[key] or [])]:
+                            if [float(x) for x in gotv[rr]] != [float(x) for x in (wantv[key] or [])][:len(spec["columns"])]:
                                 okj = False
                                 break
                         for ci, c in enumerate(cols):
@@ -731,6 +733,15 @@ def _verify_variable(imp, s, g, v, model, out, log, step):
     spec = model.vars[(s, g, v)]
     cols = spec["columns"]
     known = v in ref.KNOWN_VARS and ref.KNOWN_VARS[v][0] == cols
+    if v in ref.KNOWN_VARS and not known:
+        # a known variable stored with other components (a plane result: dx, dy only): the reader first tries
+        # the default names.  That either works (same number of components) or is refused; in both cases it
+        # is a read and may not change anything for anybody.
+        try:
+            imp.make_mesh(g, s).join_variable(v).to_frame()
+            out.count("probe:default_names_accepted")
+        except Exception:   # noqa
+            out.count("fault:default_names_refused")
     try:
         m = imp.make_mesh(g, s)
         m = m.join_variable(v) if known else m.join_variable(v, column_names=cols)
@@ -747,6 +758,7 @@ def _verify_variable(imp, s, g, v, model, out, log, step):
     got = df[cols].to_numpy()
     for r, key in enumerate(want_idx):
         w = want[key]
+        w = w[:len(cols)] if w is not None else None       # fewer components stored than the source has: the leading ones
         gl = [float(x) for x in got[r]]
         if w is None or gl != [float(x) for x in w]:
             out.violate("V1-acknowledged-durable", "variable-values", {"step": step, "variable": [s, g, v], "row": list(key), "file": gl, "model": w,
@@ -1137,16 +1149,20 @@ def canary():
         path = os.path.join(d, "c.vmap")
         idx = pd.MultiIndex.from_tuples([(2, 5), (2, 1), (2, 9), (1, 1), (1, 9), (1, 4)], names=["element_id", "node_id"])
         mesh = pd.DataFrame({"x": [0.0, 1.0, 2.0, 1.0, 2.0, 3.0], "y": [0.5, 1.5, 2.5, 1.5, 2.5, 3.5],
-                             "S11": [1.0, 2.0, 3.0, 4.0, 5.0, 6.0], "S22": 0.0, "S33": 0.0, "S12": 0.0, "S13": 0.0, "S23": 0.0}, index=idx)
+                             "S11": [1.0, 2.0, 3.0, 4.0, 5.0, 6.0], "S22": 0.0, "S33": 0.0, "S12": 0.0, "S13": 0.5, "S23": 0.25,
+                             "dx": [0.1, 0.2, 0.3, 0.2, 0.3, 0.4], "dy": 0.0, "dz": [1.0, 2.0, 3.0, 2.0, 3.0, 4.0],
+                             "E11": 0.0, "E22": 0.0, "E33": 0.0, "E12": 0.0, "E13": 0.0, "E23": [6.0, 5.0, 4.0, 3.0, 2.0, 1.0]}, index=idx)
         exp = VMAPExport(path)
         exp.add_geometry("g", mesh)
         exp.add_node_set("g", pd.Index([9, 1]), mesh, "ns")
         exp.add_variable("S", "g", "STRESS_CAUCHY", mesh)
+        exp.add_variable("S", "g", "DISPLACEMENT", mesh)
+        exp.add_variable("S", "g", "E", mesh)
         imp = VMAPImport(path)
         try:
-            df = imp.make_mesh("g", "S").join_coordinates().join_variable("STRESS_CAUCHY").to_frame()
+            df = imp.make_mesh("g", "S").join_coordinates().join_variable("STRESS_CAUCHY").join_variable("DISPLACEMENT").join_variable("E").to_frame()
             flt = imp.make_mesh("g").filter_node_set("ns").to_frame()
-            obs = [_frame_rows(df), [[float(x) for x in r] for r in df[["x", "y", "S11"]].to_numpy()], _frame_rows(flt), sorted(imp.node_sets("g"))]
+            obs = [_frame_rows(df), [str(c) for c in df.columns], [[float(x) for x in r] for r in df.to_numpy()], _frame_rows(flt), sorted(imp.node_sets("g"))]
         finally:
             _close(imp)
         return obs
